@@ -65,10 +65,10 @@ Proof. reflexivity. Qed.
 
 (* a layer the property calls protected is refused by errorIfBusy(true), unless it is in error
    state (then the command is refused for that reason when it is the target) *)
-Lemma busy_of_protected c tab um x l : known c tab um x l -> l_state x <> st_error ->
+Lemma busy_of_protected c tab um x l : known c tab um x l ->
   good_root (build_path c x) = true -> C04.protected c tab um x = true -> error_if_busy l true = true.
 Proof.
-  intros (Hs & Ho & _ & Hne) Hx Hg Hp. destruct (Hne Hx) as (K1 & K2 & K3).
+  intros (Hs & Ho & K1 & K2 & K3) Hg Hp.
   unfold error_if_busy. rewrite K1, K2, K3, Ho, overlain0_spec.
   unfold C04.protected in Hp. apply orb_true_iff in Hp as [Hp|Hp]; [|now rewrite Hp, orb_true_r].
   apply orb_true_iff in Hp as [Hp|Hp].
@@ -80,11 +80,7 @@ Qed.
 Lemma target_refusable c tab um x l : known c tab um x l ->
   good_root (build_path c x) = true -> C04.protected c tab um x = true ->
   l_state l = st_error \/ error_if_busy l true = true.
-Proof.
-  intros Hk Hg Hp. destruct (N.eq_dec (l_state x) st_error) as [E|E].
-  - left. destruct Hk as (_ & _ & He & _). now destruct (He E).
-  - right. eapply busy_of_protected; eauto.
-Qed.
+Proof. intros Hk Hg Hp. right. eapply busy_of_protected; eauto. Qed.
 
 (* ------------------------------------------------------------------ the commands refuse *)
 Lemma remove_refused e c ld n fl s l : lm_get (ld_map ld) n = Some l ->
@@ -154,10 +150,6 @@ Proof.
   - right. apply filter_In. split; [exact Hkk|]. now rewrite Em.
 Qed.
 
-(* ------------------------------------------------------------------ hypotheses (decidable) *)
-Definition no_error_children (m : lmap) (n : bytes) : bool :=
-  forallb (fun k => negb (beq (l_base k) n && (l_state k =? st_error))) m.
-
 Lemma refused_of_fail c w e cmd um : run e c um cmd (world_of w) = (Fail, s0_of (world_of w)) ->
   C04.refused_unchanged w (view_of_model c w e cmd um) = true.
 Proof.
@@ -202,17 +194,15 @@ Proof.
   exists l. split; [exact Hgl|]. eapply target_refusable; eauto. apply Hgood. now apply (lm_get_name _ _ _ Ex).
 Qed.
 
-Lemma protected_child_known n ld : Forall2 (known c tab um) m (ld_map ld) -> no_error_children m n = true ->
+Lemma protected_child_known n ld : Forall2 (known c tab um) m (ld_map ld) ->
   existsb (fun k => beq (l_base k) n && C04.protected c tab um k) m = true ->
   exists lk, In lk (ld_map ld) /\ beq (l_base lk) n = true /\ error_if_busy lk true = true.
 Proof.
-  intros HF Hne H. destruct (wf_layers_spec _ _ Hl) as [_ Hgood].
+  intros HF H. destruct (wf_layers_spec _ _ Hl) as [_ Hgood].
   apply existsb_exists in H as (k & Hk & H). apply andb_true_iff in H as [Hb Hp].
   destruct (forall2_in_l _ _ _ k HF Hk) as (lk & Hlk & Hkn). exists lk. split; [exact Hlk|].
   destruct Hkn as ((S1 & S2 & S3) & Hrest) eqn:Ekn. split; [now rewrite S2|].
   eapply busy_of_protected; eauto.
-  unfold no_error_children in Hne. rewrite forallb_forall in Hne. specialize (Hne k Hk). rewrite Hb in Hne.
-  cbn in Hne. apply negb_true_iff, N.eqb_neq in Hne. exact Hne.
 Qed.
 
 (* the direct statements: the run fails and the state is the initial one (world untouched,
@@ -225,33 +215,33 @@ Proof.
   rewrite (remove_refused e c ld n fl _ l Hgl Hb). reflexivity.
 Qed.
 
-Theorem rename_protected n n2 x : no_error_children m n = true -> lm_get m n = Some x ->
+Theorem rename_protected n n2 x : lm_get m n = Some x ->
   (C04.protected c tab um x || existsb (fun k => beq (l_base k) n && C04.protected c tab um k) m) = true ->
   run e c um (CRename n n2) (world_of w) = (Fail, s0_of (world_of w)).
 Proof.
-  intros Hne Ex Hp. destruct (run_known (CRename n n2) eq_refl) as [R|(ld & HF & R)]; [exact R|].
+  intros Ex Hp. destruct (run_known (CRename n n2) eq_refl) as [R|(ld & HF & R)]; [exact R|].
   rewrite R. cbn [cmd_body]. destruct (wf_layers_spec _ _ Hl) as [NDn _].
   apply orb_true_iff in Hp as [Hp|Hp].
   - destruct (protected_target_known n x ld Ex HF Hp) as (l & Hgl & Hb).
     rewrite (rename_refused e c ld n n2 _ l Hgl); [reflexivity|]. destruct Hb; auto.
   - destruct (forall2_get _ _ _ _ _ HF (known_name c tab um) Ex) as (l & Hgl & _).
-    destruct (protected_child_known n ld HF Hne Hp) as (lk & Hlk & Hb & Hbusy).
+    destruct (protected_child_known n ld HF Hp) as (lk & Hlk & Hb & Hbusy).
     rewrite (rename_refused e c ld n n2 _ l Hgl); [reflexivity|]. right. right.
     apply existsb_exists. exists lk. split; [|exact Hbusy]. apply child_in_order; auto.
     rewrite (forall2_names _ _ _ HF (known_name c tab um)). exact NDn.
 Qed.
 
-Theorem rebase_protected n n2 x : no_error_children m n = true -> lm_get m n = Some x ->
+Theorem rebase_protected n n2 x : lm_get m n = Some x ->
   (C04.protected c tab um x || existsb (fun k => beq (l_base k) n && C04.protected c tab um k) m) = true ->
   run e c um (CRebase n n2) (world_of w) = (Fail, s0_of (world_of w)).
 Proof.
-  intros Hne Ex Hp. destruct (run_known (CRebase n n2) eq_refl) as [R|(ld & HF & R)]; [exact R|].
+  intros Ex Hp. destruct (run_known (CRebase n n2) eq_refl) as [R|(ld & HF & R)]; [exact R|].
   rewrite R. cbn [cmd_body].
   apply orb_true_iff in Hp as [Hp|Hp].
   - destruct (protected_target_known n x ld Ex HF Hp) as (l & Hgl & Hb).
     rewrite (rebase_refused e c ld n n2 _ l Hgl); [reflexivity|]. destruct Hb; auto.
   - destruct (forall2_get _ _ _ _ _ HF (known_name c tab um) Ex) as (l & Hgl & _).
-    destruct (protected_child_known n ld HF Hne Hp) as (lk & Hlk & Hb & Hbusy).
+    destruct (protected_child_known n ld HF Hp) as (lk & Hlk & Hb & Hbusy).
     rewrite (rebase_refused e c ld n n2 _ l Hgl); [reflexivity|]. right. right.
     apply existsb_exists. exists lk. split; [exact Hlk|]. now rewrite Hb, Hbusy.
 Qed.
@@ -259,27 +249,28 @@ Qed.
 Theorem C04_remove_proof n fl : C04.step_spec c w (view_of_model c w e (CRemove n fl) um) = true.
 Proof.
   unfold C04.step_spec. destruct (view_fields c w e (CRemove n fl) um) as (E1 & E2 & E3).
-  rewrite E1, E2, E3, He. cbn [negb]. fold m. fold tab.
+  rewrite E1, E2, E3, He. cbn [negb].
+  destruct (base_set_up c (wo_fs w) && check_inheritance _) eqn:Epre; [|reflexivity]. cbn [negb]. fold m. fold tab.
   destruct (lm_get m n) as [x|] eqn:Ex; [|reflexivity]. rewrite orb_false_r.
   destruct (C04.protected c tab um x) eqn:Hp; [|reflexivity]. cbn [negb orb].
   apply refused_of_fail. eapply remove_protected; eauto.
 Qed.
 
-Theorem C04_rename_proof n n2 : no_error_children m n = true ->
-  C04.step_spec c w (view_of_model c w e (CRename n n2) um) = true.
+Theorem C04_rename_proof n n2 : C04.step_spec c w (view_of_model c w e (CRename n n2) um) = true.
 Proof.
-  intros Hne. unfold C04.step_spec. destruct (view_fields c w e (CRename n n2) um) as (E1 & E2 & E3).
-  rewrite E1, E2, E3, He. cbn [negb]. fold m. fold tab.
+  unfold C04.step_spec. destruct (view_fields c w e (CRename n n2) um) as (E1 & E2 & E3).
+  rewrite E1, E2, E3, He. cbn [negb].
+  destruct (base_set_up c (wo_fs w) && check_inheritance _) eqn:Epre; [|reflexivity]. cbn [negb]. fold m. fold tab.
   destruct (lm_get m n) as [x|] eqn:Ex; [|reflexivity]. cbn [andb].
   destruct (C04.protected c tab um x || existsb _ m) eqn:Hp; [|reflexivity]. cbn [negb orb].
   apply refused_of_fail. eapply rename_protected; eauto.
 Qed.
 
-Theorem C04_rebase_proof n n2 : no_error_children m n = true ->
-  C04.step_spec c w (view_of_model c w e (CRebase n n2) um) = true.
+Theorem C04_rebase_proof n n2 : C04.step_spec c w (view_of_model c w e (CRebase n n2) um) = true.
 Proof.
-  intros Hne. unfold C04.step_spec. destruct (view_fields c w e (CRebase n n2) um) as (E1 & E2 & E3).
-  rewrite E1, E2, E3, He. cbn [negb]. fold m. fold tab.
+  unfold C04.step_spec. destruct (view_fields c w e (CRebase n n2) um) as (E1 & E2 & E3).
+  rewrite E1, E2, E3, He. cbn [negb].
+  destruct (base_set_up c (wo_fs w) && check_inheritance _) eqn:Epre; [|reflexivity]. cbn [negb]. fold m. fold tab.
   destruct (lm_get m n) as [x|] eqn:Ex; [|reflexivity]. cbn [andb].
   destruct (C04.protected c tab um x || existsb _ m) eqn:Hp; [|reflexivity]. cbn [negb orb].
   apply refused_of_fail. eapply rebase_protected; eauto.
@@ -314,13 +305,6 @@ Proof.
   unfold dirs_noslash in Hn. rewrite forallb_forall in Hn. apply negb_true_iff. now apply Hn.
 Qed.
 
-Definition hyp_umount1 (c : cfgT) (f : fsT) (m : lmap) (n : bytes) : bool :=
-  dirs_noslash c && base_set_up c f && check_inheritance m
-  && match lm_get m n with
-     | Some x => negb (l_state x =? st_error)
-     | None => true
-     end.
-
 Section Umount1.
 Variables (c : cfgT) (w : wobs) (e : env) (um : users_map).
 Hypothesis He : plain_env e = true.
@@ -330,11 +314,13 @@ Hypothesis Hl : wf_layers c (layers_on_disk c (wo_fs w)) = true.
 Let m := layers_on_disk c (wo_fs w).
 Let tab := ks_tab (wo_ks w).
 
-Theorem C04_umount1_proof n : hyp_umount1 c (wo_fs w) m n = true ->
+Theorem C04_umount1_proof n : dirs_noslash c = true ->
   C04.step_spec c w (view_of_model c w e (CUmount n false) um) = true.
 Proof.
-  intros Hh. unfold hyp_umount1 in Hh.
-  apply andb_true_iff in Hh as [Hh Hx]. apply andb_true_iff in Hh as [Hh Hci]. apply andb_true_iff in Hh as [Hdn Hb].
+  intros Hdn. unfold C04.step_spec.
+  destruct (view_fields c w e (CUmount n false) um) as (E1 & E2 & E3). rewrite E1, E2, E3, He. cbn [negb].
+  destruct (base_set_up c (wo_fs w) && check_inheritance _) eqn:Epre; [|reflexivity]. cbn [negb].
+  apply andb_true_iff in Epre as [Hb Hci].
   pose proof (plain_env_plain e He) as Hp.
   destruct (wf_layers_spec _ _ Hl) as [NDn Hgood].
   destruct (run_go e c um (CUmount n false) (world_of w) eq_refl Hwf Hb Hci) as (ord & Hn & R).
@@ -343,18 +329,12 @@ Proof.
   destruct (probe_pure_inv c um (wo_fs w) tab m ord NDn (read_layer_files_fresh c (wo_fs w))) as (HF & _ & _).
   { intros y Hy. eapply Permutation_in; [symmetry; apply normalize_perm; exact Hn|]. now apply in_map. }
   set (ld := probe_pure c um (wo_fs w) tab m ord) in *.
-  unfold C04.step_spec.
-  assert (Ev : v_env (view_of_model c w e (CUmount n false) um) = e
-            /\ v_cmd (view_of_model c w e (CUmount n false) um) = CUmount n false
-            /\ v_users (view_of_model c w e (CUmount n false) um) = um).
-  { unfold view_of_model. destruct (run _ _ _ _ _). auto. }
-  destruct Ev as (E1 & E2 & E3). rewrite E1, E2, E3, He. cbn [negb]. fold m. fold tab.
+  fold m. fold tab.
   destruct (lm_get m n) as [x|] eqn:Ex; [|destruct n; reflexivity].
-  rename Hx into Hxe. apply negb_true_iff, N.eqb_neq in Hxe.
   destruct (lm_get_name _ _ _ Ex) as [Hxn Hxin].
   destruct n as [|a r]; [exfalso; exact (layer_name_nonempty c (wo_fs w) x Hxin Hxn)|].
-  destruct (forall2_get _ _ _ _ _ HF (known_name c tab um) Ex) as (l & Hgl & (Hs & Ho & _ & Hne)).
-  destruct (Hne Hxe) as (K1 & K2 & K3). rewrite Hxn in K2.
+  destruct (forall2_get _ _ _ _ _ HF (known_name c tab um) Ex) as (l & Hgl & (Hs & Ho & K1 & K2 & K3)).
+  rewrite Hxn in K2.
   destruct (ku_seq (wo_ks w) (rev (l_kmounts l))) as [[ok ks'] iss] eqn:Eku.
   assert (Hul : unmount_layer e c ld (a :: r) (s0_of (world_of w)) = _) by
     (apply (unmount_layer_eq e c ld (a :: r) l (s0_of (world_of w)) Hp Hgl ok ks' iss Eku); intros _; eapply ku_seq_wf; eauto).
@@ -402,26 +382,23 @@ Hypothesis Hap : roots_apart c (layers_on_disk c (wo_fs w)) = true.
 Let m := layers_on_disk c (wo_fs w).
 Let tab := ks_tab (wo_ks w).
 
-Lemma known_RL4 x l : known c tab um x l -> RL4 c um x l.
+Lemma known_RL4 x l : known c tab um x l -> RL4 c um tab x l.
 Proof.
-  intros (Hs & Ho & He0 & Hne). split; [exact Hs|].
-  destruct (N.eq_dec (l_state x) st_error) as [E|E].
-  - destruct (He0 E) as (_ & K & _). rewrite K. split; [intros t []|]. intros _. now left.
-  - destruct (Hne E) as (K1 & K2 & _). split.
-    + intros t Ht. rewrite K1 in Ht. eapply kmounts0_below; eauto.
-    + intros Hb. right. rewrite K2. apply in_mount_dirs_mb0. exact Hb.
+  intros (Hs & Ho & K1 & K2 & _). split; [exact Hs|]. split; [exact Ho|]. split.
+  - intros t Ht. rewrite K1 in Ht. eapply kmounts0_below; eauto.
+  - intros Hb. right. rewrite K2. apply in_mount_dirs_mb0. exact Hb.
 Qed.
 
 Theorem C04_umount_all_proof : C04.step_spec c w (view_of_model c w e (CUmount [] true) um) = true.
 Proof.
   pose proof (plain_env_plain e He) as Hp. destruct (wf_layers_spec _ _ Hl) as [NDn Hgood].
   assert (Hlog : exists o st iss, run e c um (CUmount [] true) (world_of w) = (o, st)
-                  /\ s_log st = rev (umlog e iss) /\ Forall (tgt_ok c um m) iss).
+                  /\ s_log st = rev (umlog e iss) /\ Forall (tgt_ok c um m (ks_tab (w_ks (s_w st)))) iss).
   { destruct (run_known c w e um Hwf Hl (CUmount [] true) eq_refl) as [R|(ld & HF & R)].
     - exists Fail, (s0_of (world_of w)), []. split; [exact R|]. split; [reflexivity|constructor].
     - cbn [cmd_body] in R. rewrite unmount_all_eq in R. unfold bind in R.
       destruct (light_loop e c um m Hp NDn (rev (ld_order ld)) ld false (s0_of (world_of w)))
-        as (o & s' & iss & G & Hlg & Htg).
+        as (o & s' & iss & G & Hlg & _ & Htg).
       + eapply forall2_impl_in; [exact HF|]. intros x l _. apply known_RL4.
       + exact Hwf.
       + rewrite G in R. cbn [s0_of s_log] in Hlg. rewrite app_nil_r in Hlg.
@@ -432,17 +409,22 @@ Proof.
         * eexists _, s', iss; (split; [exact R|]); auto.
         * eexists _, s', iss; (split; [exact R|]); auto. }
   destruct Hlog as (o & st & iss & R & Hlg & Htg).
-  rewrite (view_of_run _ _ _ _ _ _ _ R). unfold C04.step_spec. cbn [v_env v_cmd v_users v_log]. rewrite He. cbn [negb].
+  rewrite (view_of_run _ _ _ _ _ _ _ R). unfold C04.step_spec. cbn [v_env v_cmd v_users v_log v_after wo_ks]. rewrite He. cbn [negb].
+  destruct (base_set_up c (wo_fs w) && check_inheritance _) eqn:Epre; [|reflexivity]. cbn [negb].
   rewrite Hlg, rev_involutive, umount_targets_umlog. fold m. fold tab.
   apply forallb_forall. intros x Hx.
-  destruct (existsb (in_mount_dirs c) (users_of um (l_name x))) eqn:Eb; [|now rewrite orb_true_r].
-  cbn [negb orb]. rewrite orb_false_r. apply negb_true_iff.
-  apply existsb_false_forall. intros t Ht. rewrite Forall_forall in Htg.
-  destruct (Htg t Ht) as (y & Hy & Hyb & Hyt).
-  rewrite at_or_under_below by (apply good_root_spec, (Hgood x Hx)).
-  destruct (at_or_below (build_path c x) t) eqn:Ext; [|reflexivity]. exfalso.
-  apply (roots_apart_spec c m x y t Hap Hx Hy); auto.
-  intros En. unfold ublocked in Hyb. rewrite <- En in Hyb. congruence.
+  destruct (existsb (fun t => at_or_under (build_path c x) t) iss) eqn:Et; [|now rewrite orb_true_r].
+  (* x is touched: the touching call belongs to x itself, which is neither user-blocked nor overlain at the end *)
+  apply existsb_exists in Et as (t & Ht & Hxt). rewrite Forall_forall in Htg.
+  destruct (Htg t Ht) as (y & Hy & Hyb & Hyo & Hyt).
+  rewrite at_or_under_below in Hxt by (apply good_root_spec, (Hgood x Hx)).
+  assert (Exy : x = y).
+  { apply (nodup_names_inj m x y NDn Hx Hy).
+    destruct (list_eq_dec ascii_dec (l_name x) (l_name y)) as [E|E]; [exact E|]. exfalso.
+    exact (roots_apart_spec c m x y t Hap Hx Hy E Hxt Hyt). }
+  subst y. unfold ublocked in Hyb. rewrite Hyb. cbn [negb orb andb].
+  change (overlain_by_mount c (ks_tab (w_ks (s_w st))) x) with (overlain0 (ks_tab (w_ks (s_w st))) (build_path c x)).
+  rewrite Hyo. now rewrite orb_true_r.
 Qed.
 
 End UmountAll.
@@ -452,8 +434,7 @@ Definition C04_hyp (c : cfgT) (w : wobs) (cmd : command) : bool :=
   let m := layers_on_disk c (wo_fs w) in
   wf_table (ks_tab (wo_ks w)) && wf_layers c m
   && match cmd with
-     | CRename n _ | CRebase n _ => no_error_children m n
-     | CUmount n false => hyp_umount1 c (wo_fs w) m n
+     | CUmount _ false => dirs_noslash c
      | CUmount [] true => roots_apart c m
      | _ => true
      end.
@@ -468,24 +449,25 @@ Proof.
                      C04.step_spec c w v = true) ->
                    C04.step_spec c w (view_of_model c w e cmd' um) = true).
   { intros cmd' H. destruct (view_fields c w e cmd' um) as (E1 & E2 & _). now apply H. }
-  destruct cmd as [ |n b0 cf|n fl|n n2|n n2|n|n|n all| |n| |s t ty fl d|t].
-  - apply Htriv. intros v E1 E2. unfold C04.step_spec. now rewrite E1, E2, He.
-  - apply Htriv. intros v E1 E2. unfold C04.step_spec. now rewrite E1, E2, He.
+  destruct cmd as [ |n b0 cf|n fl|n n2|n n2|n|n|n all| |n| |s t ty fl d|t|p0 x0].
+  - apply Htriv. intros v E1 E2. unfold C04.step_spec. rewrite E1, E2, He. now destruct (_ && _).
+  - apply Htriv. intros v E1 E2. unfold C04.step_spec. rewrite E1, E2, He. now destruct (_ && _).
   - now apply C04_remove_proof.
   - now apply C04_rename_proof.
   - now apply C04_rebase_proof.
-  - apply Htriv. intros v E1 E2. unfold C04.step_spec. now rewrite E1, E2, He.
-  - apply Htriv. intros v E1 E2. unfold C04.step_spec. now rewrite E1, E2, He.
+  - apply Htriv. intros v E1 E2. unfold C04.step_spec. rewrite E1, E2, He. now destruct (_ && _).
+  - apply Htriv. intros v E1 E2. unfold C04.step_spec. rewrite E1, E2, He. now destruct (_ && _).
   - destruct all.
     + destruct n as [|a r].
       * apply C04_umount_all_proof; [exact He|exact Hwf|exact Hl|exact Hc].
-      * apply Htriv. intros v E1 E2. unfold C04.step_spec. now rewrite E1, E2, He.
+      * apply Htriv. intros v E1 E2. unfold C04.step_spec. rewrite E1, E2, He. now destruct (_ && _).
     + apply C04_umount1_proof; [exact He|exact Hwf|exact Hl|destruct n; exact Hc].
-  - apply Htriv. intros v E1 E2. unfold C04.step_spec. now rewrite E1, E2, He.
-  - apply Htriv. intros v E1 E2. unfold C04.step_spec. now rewrite E1, E2, He.
-  - apply Htriv. intros v E1 E2. unfold C04.step_spec. now rewrite E1, E2, He.
-  - apply Htriv. intros v E1 E2. unfold C04.step_spec. now rewrite E1, E2, He.
-  - apply Htriv. intros v E1 E2. unfold C04.step_spec. now rewrite E1, E2, He.
+  - apply Htriv. intros v E1 E2. unfold C04.step_spec. rewrite E1, E2, He. now destruct (_ && _).
+  - apply Htriv. intros v E1 E2. unfold C04.step_spec. rewrite E1, E2, He. now destruct (_ && _).
+  - apply Htriv. intros v E1 E2. unfold C04.step_spec. rewrite E1, E2, He. now destruct (_ && _).
+  - apply Htriv. intros v E1 E2. unfold C04.step_spec. rewrite E1, E2, He. now destruct (_ && _).
+  - apply Htriv. intros v E1 E2. unfold C04.step_spec. rewrite E1, E2, He. now destruct (_ && _).
+  - apply Htriv. intros v E1 E2. unfold C04.step_spec. rewrite E1, E2, He. now destruct (_ && _).
 Qed.
 
 Theorem C04_model_any_env : forall c w e cmd um, C04_hyp c w cmd = true ->
